@@ -14,6 +14,8 @@ import (
 	"github.com/trustbloc/sidetree-core-go/pkg/util/pubkey"
 	"github.com/trustbloc/sidetree-core-go/pkg/versions/1_0/client"
 
+	"github.com/trustbloc/sidetree-core-go/pkg/versions/1_0/operationparser"
+
 	"verif/mc/fx"
 	"verif/mc/hx"
 	"verif/mc/ref/doc"
@@ -48,13 +50,29 @@ func toPatches(vals []interface{}) []patch.Patch {
 	return ps
 }
 
+// c11ServerTime accepts a window that contains the server time.
+type c11ServerTime int64
+
+func (t c11ServerTime) Validate(from, until int64) error {
+	if from == 0 && until == 0 {
+		return nil
+	}
+	if int64(t) < from {
+		return operationparser.ErrOperationEarly
+	}
+	if int64(t) >= until {
+		return operationparser.ErrOperationExpired
+	}
+	return nil
+}
+
 func jsonEq(a, b interface{}) bool {
 	return string(jcs.MustCanon(doc.Plain(a))) == string(jcs.MustCanon(doc.Plain(b)))
 }
 
 func c11(r *hx.Run) {
 	fx.Quiet()
-	r.Rule = "full product of builder inputs: 5 key types (EdDSA, ES256, ES384, ES512, ES256K) x 2 hash algorithms x {opaque document, patch list} x anchor origin {nil, string, object} x window {none, from only, from+until} x nonce {absent, 16 bytes} x kid {absent, present}, plus 16 configurations whose signing keys have a coordinate with a leading zero byte; the four client builders with the library's signers and JWK conversion produce create/update/recover/deactivate requests; each must be accepted by the real parser, parse back to the supplied suffix, commitments, patches, reveal value, key and window, and - anchored inside the window on a DID whose commitment matches - resolve on the real processor to the state computed by ref/doc + the supplied commitments. Non-trivial: every configuration (all reach resolution)."
+	r.Rule = "full product of builder inputs: 5 key types (EdDSA, ES256, ES384, ES512, ES256K) x 2 hash algorithms x {opaque document, patch list} x anchor origin {nil, string, object} x window {none, from only, from+until} x nonce {absent, 16 bytes} x kid {absent, present}, plus 16 configurations whose signing keys have a coordinate with a leading zero byte; the four client builders with the library's signers and JWK conversion produce create/update/recover/deactivate requests; each must be accepted by the real parser (configured with a server-time window validator, T inside every supplied window), parse back to the supplied suffix, commitments, patches, reveal value, key and window, and - anchored inside the window on a DID whose commitment matches - resolve on the real processor to the state computed by ref/doc + the supplied commitments. Non-trivial: every configuration (all reach resolution)."
 	const T = 1000
 	type cfg struct {
 		kt     string
@@ -100,7 +118,9 @@ func c11(r *hx.Run) {
 		p := fx.DefaultProtocol()
 		other := fx.SHA256 + fx.SHA512 - c.code
 		p.MultihashAlgorithms = []uint{c.code, other}
-		ver := fx.NewVersion(p, nil)
+		// intake validates the signed window against the server time T (a validator in the style of a deployment: from <= T < until;
+		// 0/0 means no window)
+		ver := fx.NewVersion(p, &fx.VersionOpts{ParserOpts: []operationparser.Option{operationparser.WithAnchorTimeValidator(c11ServerTime(T))}})
 		cl := fx.NewClient(ver)
 		nonce := ""
 		if c.nonce {
